@@ -631,6 +631,7 @@ def c16(tier):
             T("utils", "VerifC16_Column", {"N": 3}),
             T("transformer", "VerifC03_PrePass", {"N": W(tier, 6, 8)}),
             T("transformer", "VerifC07_Merge", {"SCEN": 1, "N": 2, "NR": 1, "SEPS": 1}),
+            T("transformer", "VerifC07_Merge", {"SCEN": 5, "N": 1, "NR": 1}),
             T("transformer", "VerifC07_Merge", {"SCEN": 0, "F": 2, "DECLS": 3, "RELS": 1, "CONDS": 1, "FAULTS": 0, "N": 2, "NR": 1}),
             LJ("VerifListener_Doc", tier, MODULES=1, EXTEND=1, NODES=1, DEPTH=0, CONDS=2),
             T("transformer", "VerifC16_SyntaxError")]
@@ -932,14 +933,15 @@ MERGE_ASSUME = ["TransformModularDSLToProto (lexer+parser+listener) is replaced 
 def merge_jobs(tier, harness, pols):
     jobs = []
     n = W(tier, 2, 2)
-    for scen, extra in ((1, {"SEPS": 1}), (2, {}), (3, {"N": 1, "NR": 2}), (4, {}), (0, {"F": 2, "DECLS": W(tier, 3, 4), "RELS": W(tier, 1, 2), "CONDS": 1, "FAULTS": 0}),
+    for scen, extra in ((1, {"SEPS": 1}), (2, {}), (3, {"N": 1, "NR": 2}), (4, {}), (5, {"NR": 1}), (0, {"F": 2, "DECLS": W(tier, 3, 4), "RELS": W(tier, 1, 2), "CONDS": 1, "FAULTS": 0}),
                         (0, {"F": 2, "DECLS": 2, "RELS": 1, "CONDS": 1, "FAULTS": 1, "N": 1})):
         params = dict({"SCEN": scen, "N": n, "NR": 1}, **extra)
         jobs.append(T("transformer", harness, params, **pols))
     return jobs
 
 
-MERGE_BOUNDS = {"SCEN 3": "two base types with a relation each, two files each extending a type (all names symbolic)",
+MERGE_BOUNDS = {"SCEN 5": "a base type with two relations, one file with two extension blocks, the second declaring two relations (0-2 conflicts in either textual order)",
+                "SCEN 3": "two base types with a relation each, two files each extending a type (all names symbolic)",
                 "SCEN 4": "one extension block with two relations whose names may be prefixes of each other, on a type that already has relations",
                 "SCEN 1": "base type + two/three extensions in 2-3 files, names symbolic (length <= 2 types, 1 relations)",
                 "SCEN 2": "relation-less base type, two extending files, optional conditions",
@@ -953,7 +955,7 @@ def c07(tier):
 
 
 def c12(tier):
-    jobs = merge_jobs(tier, "VerifC12_Deterministic", ALL)[:5] + merge_jobs(tier, "VerifC12_Permuted", FIRST)[:5]
+    jobs = merge_jobs(tier, "VerifC12_Deterministic", ALL)[:6] + merge_jobs(tier, "VerifC12_Permuted", FIRST)[:6]
     out = engine_a_check("C12", tier, jobs, {"VerifC12_Deterministic": ["accepted", "rejected"], "VerifC12_Permuted": ["accepted", "rejected"]},
                          MERGE_ASSUME + ["every iteration order of the maps ranged over in module-to-model.go (self-composition: two merges, independent orders)"], "", bounds=MERGE_BOUNDS)
     out.finish()
